@@ -1,7 +1,8 @@
 import Frp.Model.Group
 /-
   Invariants of the group transition system (Frp/Model/Group.lean) for the controllers that run
-  lookup+join and the whole leave under the controller lock (`fx.oneLock = true`).
+  lookup+join and the whole leave under the controller lock (`fx.oneLock = true`, `fx.leaveOne = true`),
+  with the leave's two sections (`leaveEdit`, `leaveDel`) as labels of their own.
 -/
 namespace Frp
 namespace Group
@@ -67,29 +68,66 @@ structure GInv (s : St) : Prop where
   /-- a populated object has a live hand-off channel and IS the object stored under its name -/
   pop : ∀ (gid : Nat) (o : Obj), s.objs[gid]? = some o → o.members ≠ [] →
           o.chClosed = false ∧ s.table.lookup o.name = some gid
-  /-- whatever the table points to exists and has a live channel -/
-  tab : ∀ g gid, s.table.lookup g = some gid → ∃ o, s.objs[gid]? = some o ∧ o.chClosed = false
+  /-- whatever the table points to exists and has a live channel — or is the object a leave has just
+      emptied and is about to delete (that leave then holds the controller lock: `lockNone`) -/
+  tab : ∀ g gid, s.table.lookup g = some gid →
+          ∃ o, s.objs[gid]? = some o ∧ (o.chClosed = false ∨ ∃ m, (m, gid, g) ∈ s.pdel)
   tabInj : ∀ g g' gid, s.table.lookup g = some gid → s.table.lookup g' = some gid → g = g'
-  lockNone : s.lock = none → s.pend = []
-  lockSome : ∀ m, s.lock = some m → ∃ g gid, s.pend = [(m, g, gid)] ∧ s.table.lookup g = some gid
+  lockNone : s.lock = none → s.pend = [] ∧ s.pdel = []
+  /-- the controller lock is held between two labels either by ONE join between lookup and enter, or by ONE
+      leave between its two sections -/
+  lockSome : ∀ m, s.lock = some m →
+      (∃ g gid, s.pend = [(m, g, gid)] ∧ s.table.lookup g = some gid ∧ s.pdel = []) ∨
+      (s.pend = [] ∧ ∃ gid g, s.pdel = [(m, gid, g)])
+  /-- a leave between its sections: its object is empty and still the one stored under its name -/
+  pdelOk : ∀ m gid g, (m, gid, g) ∈ s.pdel →
+      s.table.lookup g = some gid ∧ ∃ o, s.objs[gid]? = some o ∧ o.members = [] ∧ o.name = g
 
 theorem inv_init (k : Kind) (allow : List Nat) : GInv (init k allow) :=
   ⟨rfl, by intro gid o h; simp [init] at h, by intro gid o h; simp [init] at h,
    by intro g gid h; simp [init] at h, by intro g g' gid h; simp [init] at h,
-   fun _ => rfl, by intro m h; simp [init] at h⟩
+   fun _ => ⟨rfl, rfl⟩, by intro m h; simp [init] at h, by intro m gid g h; simp [init] at h⟩
 
-/-- the invariant reads only these five fields -/
+/-- the invariant reads only these six fields -/
 theorem inv_congr {s s' : St} (h : GInv s) (h1 : s'.panicked = s.panicked) (h2 : s'.objs = s.objs)
-    (h3 : s'.table = s.table) (h4 : s'.pend = s.pend) (h5 : s'.lock = s.lock) : GInv s' :=
+    (h3 : s'.table = s.table) (h4 : s'.pend = s.pend) (h5 : s'.lock = s.lock)
+    (h6 : s'.pdel = s.pdel := by rfl) : GInv s' :=
   ⟨by rw [h1]; exact h.noPanic, by rw [h2]; exact h.openIff, by rw [h2, h3]; exact h.pop,
-   by rw [h2, h3]; exact h.tab, by rw [h3]; exact h.tabInj, by rw [h4, h5]; exact h.lockNone,
-   by rw [h4, h5, h3]; exact h.lockSome⟩
+   by rw [h2, h3, h6]; exact h.tab, by rw [h3]; exact h.tabInj, by rw [h4, h5, h6]; exact h.lockNone,
+   by rw [h4, h5, h3, h6]; exact h.lockSome, by rw [h6, h3, h2]; exact h.pdelOk⟩
+
+theorem get_setObj_self {s : St} {gid : Nat} {o o' : Obj} (hg : s.objs[gid]? = some o) :
+    (s.setObj gid o').objs[gid]? = some o' := by
+  have : gid < s.objs.length := by
+    rcases Nat.lt_or_ge gid s.objs.length with hlt | hge
+    · exact hlt
+    · rw [List.getElem?_eq_none hge] at hg; cases hg
+  show (s.objs.set gid o')[gid]? = some o'
+  rw [List.getElem?_set]; simp [this]
+
+theorem get_setObj_ne {s : St} {gid j : Nat} {o' : Obj} (h : j ≠ gid) :
+    (s.setObj gid o').objs[j]? = s.objs[j]? := by
+  show (s.objs.set gid o')[j]? = s.objs[j]?
+  rw [List.getElem?_set, if_neg (fun e : gid = j => h e.symm)]
+
+/-- the leaves between their sections keep their (empty, registered) object when an object is replaced by
+    one that is empty with the same name whenever the old one was empty -/
+theorem pdelOk_setObj {s : St} {gid : Nat} {o' : Obj} (h : GInv s)
+    (hm : ∀ o, s.objs[gid]? = some o → o.members = [] → o'.members = [] ∧ o'.name = o.name) :
+    ∀ m j g, (m, j, g) ∈ s.pdel →
+      s.table.lookup g = some j ∧ ∃ o, (s.setObj gid o').objs[j]? = some o ∧ o.members = [] ∧ o.name = g := by
+  intro m j g hmem
+  obtain ⟨ht, x, hx, hxm, hxn⟩ := h.pdelOk m j g hmem
+  by_cases hj : j = gid
+  · subst hj
+    exact ⟨ht, o', get_setObj_self hx, (hm x hx hxm).1, by rw [(hm x hx hxm).2]; exact hxn⟩
+  · exact ⟨ht, x, by rw [get_setObj_ne hj]; exact hx, hxm, hxn⟩
 
 /-- replacing an object by one with the same name, members, channel and listener state -/
 theorem inv_setObj_same {s : St} {gid : Nat} {o o' : Obj} (h : GInv s) (hg : s.objs[gid]? = some o)
     (hn : o'.name = o.name) (hm : o'.members = o.members) (hc : o'.chClosed = o.chClosed)
     (hl : o'.lnOpen = o.lnOpen) : GInv (s.setObj gid o') := by
-  refine ⟨h.noPanic, ?_, ?_, ?_, h.tabInj, h.lockNone, h.lockSome⟩
+  refine ⟨h.noPanic, ?_, ?_, ?_, h.tabInj, h.lockNone, h.lockSome, ?_⟩
   · intro j x hx
     rcases get_set hx with ⟨rfl, rfl, _⟩ | ⟨_, hx'⟩
     · rw [hl, hm]; exact h.openIff _ _ hg
@@ -103,17 +141,9 @@ theorem inv_setObj_same {s : St} {gid : Nat} {o o' : Obj} (h : GInv s) (hg : s.o
     by_cases hji : j = gid
     · subst hji
       rw [hg] at hx; cases hx
-      refine ⟨o', ?_, by rw [hc]; exact hxc⟩
-      show (s.objs.set j o')[j]? = some o'
-      rw [List.getElem?_set]
-      have : j < s.objs.length := by
-        rcases Nat.lt_or_ge j s.objs.length with hlt | hge
-        · exact hlt
-        · rw [List.getElem?_eq_none hge] at hg; cases hg
-      simp [this]
-    · refine ⟨x, ?_, hxc⟩
-      show (s.objs.set gid o')[j]? = some x
-      rw [List.getElem?_set, if_neg (fun e : gid = j => hji e.symm)]; exact hx
+      exact ⟨o', get_setObj_self hg, hxc.imp (fun e => by rw [hc]; exact e) id⟩
+    · exact ⟨x, by rw [get_setObj_ne hji]; exact hx, hxc⟩
+  · exact pdelOk_setObj h (fun x hx hxm => by rw [hg] at hx; cases hx; exact ⟨by rw [hm]; exact hxm, hn⟩)
 
 
 theorem inv_setObj_same' {s : St} {gid : Nat} {o' : Obj} (h : GInv s)
@@ -213,25 +243,11 @@ theorem inv_recv {fx : Fix} {s s' : St} {m : Str} {gid : Nat} {r : Res} (hi : GI
       · cases hs
 
 
-theorem get_setObj_self {s : St} {gid : Nat} {o o' : Obj} (hg : s.objs[gid]? = some o) :
-    (s.setObj gid o').objs[gid]? = some o' := by
-  have : gid < s.objs.length := by
-    rcases Nat.lt_or_ge gid s.objs.length with hlt | hge
-    · exact hlt
-    · rw [List.getElem?_eq_none hge] at hg; cases hg
-  show (s.objs.set gid o')[gid]? = some o'
-  rw [List.getElem?_set]; simp [this]
-
-theorem get_setObj_ne {s : St} {gid j : Nat} {o' : Obj} (h : j ≠ gid) :
-    (s.setObj gid o').objs[j]? = s.objs[j]? := by
-  show (s.objs.set gid o')[j]? = s.objs[j]?
-  rw [List.getElem?_set, if_neg (fun e : gid = j => h e.symm)]
-
 /-- members change but stay non-empty (a later join, a leave that is not the last) -/
 theorem inv_setObj_ne {s : St} {gid : Nat} {o o' : Obj} (h : GInv s) (hg : s.objs[gid]? = some o)
     (hn : o'.name = o.name) (hm : o.members ≠ []) (hm' : o'.members ≠ [])
     (hc : o'.chClosed = o.chClosed) (hl : o'.lnOpen = o.lnOpen) : GInv (s.setObj gid o') := by
-  refine ⟨h.noPanic, ?_, ?_, ?_, h.tabInj, h.lockNone, h.lockSome⟩
+  refine ⟨h.noPanic, ?_, ?_, ?_, h.tabInj, h.lockNone, h.lockSome, ?_⟩
   · intro j x hx
     rcases get_set hx with ⟨rfl, rfl, _⟩ | ⟨_, hx'⟩
     · rw [hl]; exact ⟨fun _ => hm', fun _ => (h.openIff _ _ hg).2 hm⟩
@@ -245,16 +261,23 @@ theorem inv_setObj_ne {s : St} {gid : Nat} {o o' : Obj} (h : GInv s) (hg : s.obj
     by_cases hji : j = gid
     · subst hji
       rw [hg] at hx; cases hx
-      exact ⟨o', get_setObj_self hg, by rw [hc]; exact hxc⟩
+      exact ⟨o', get_setObj_self hg, hxc.imp (fun e => by rw [hc]; exact e) id⟩
     · exact ⟨x, by rw [get_setObj_ne hji]; exact hx, hxc⟩
+  · exact pdelOk_setObj h (fun x hx hxm => by rw [hg] at hx; cases hx; exact absurd hxm hm)
 
 /-- the first member populates the object stored under `g` -/
 theorem inv_populate {s : St} {g : Str} {gid : Nat} {o' : Obj} (h : GInv s)
     (ht : s.table.lookup g = some gid) (hn : o'.name = g) (hm : o'.members ≠ [])
-    (hl : o'.lnOpen = true) (hc : o'.chClosed = (s.obj gid).chClosed) : GInv (s.setObj gid o') := by
-  obtain ⟨o, hg, hoc⟩ := h.tab g gid ht
+    (hl : o'.lnOpen = true) (hc : o'.chClosed = (s.obj gid).chClosed) (hpd : s.pdel = []) :
+    GInv (s.setObj gid o') := by
+  obtain ⟨o, hg, hoc'⟩ := h.tab g gid ht
+  have hoc : o.chClosed = false := by
+    rcases hoc' with e | ⟨m, hm⟩
+    · exact e
+    · rw [hpd] at hm; cases hm
   rw [obj_of_get hg] at hc
-  refine ⟨h.noPanic, ?_, ?_, ?_, h.tabInj, h.lockNone, h.lockSome⟩
+  refine ⟨h.noPanic, ?_, ?_, ?_, h.tabInj, h.lockNone, h.lockSome,
+    by intro m j g' hm; have hm' : (m, j, g') ∈ s.pdel := hm; rw [hpd] at hm'; cases hm'⟩
   · intro j x hx
     rcases get_set hx with ⟨rfl, rfl, _⟩ | ⟨_, hx'⟩
     · exact ⟨fun _ => hm, fun _ => hl⟩
@@ -267,7 +290,7 @@ theorem inv_populate {s : St} {g : Str} {gid : Nat} {o' : Obj} (h : GInv s)
     obtain ⟨x, hx, hxc⟩ := h.tab g' j hj
     by_cases hji : j = gid
     · subst hji
-      exact ⟨o', get_setObj_self hg, by rw [hc]; exact hoc⟩
+      exact ⟨o', get_setObj_self hg, Or.inl (by rw [hc]; exact hoc)⟩
     · exact ⟨x, by rw [get_setObj_ne hji]; exact hx, hxc⟩
 
 /-- the last member leaves: the object is emptied and the name removed from the table -/
@@ -277,7 +300,9 @@ theorem inv_remove {s : St} {g : Str} {gid : Nat} {o' : Obj} (h : GInv s)
     GInv { s.setObj gid o' with table := s.table.filter (fun e => !(e.1 == g)) } := by
   obtain ⟨o, hg, _⟩ := h.tab g gid ht
   have hpend := h.lockNone hlock
-  refine ⟨h.noPanic, ?_, ?_, ?_, ?_, fun _ => hpend, ?_⟩
+  have hpd : s.pdel = [] := hpend.2
+  refine ⟨h.noPanic, ?_, ?_, ?_, ?_, fun _ => hpend, ?_,
+    by intro m j g' hm; have hm' : (m, j, g') ∈ s.pdel := hm; rw [hpd] at hm'; cases hm'⟩
   · intro j x hx
     rcases get_set hx with ⟨rfl, rfl, _⟩ | ⟨_, hx'⟩
     · rw [hl, hm]; simp
@@ -316,15 +341,15 @@ theorem inv_remove {s : St} {g : Str} {gid : Nat} {o' : Obj} (h : GInv s)
 theorem createEp_frame {fx : Fix} {s s1 : St} {p : Params} {orc : Oracle} {res : Except Err (Nat × EpKey)}
     (h : createEp fx s p orc = some (s1, res)) :
     s1.panicked = s.panicked ∧ s1.objs = s.objs ∧ s1.table = s.table ∧ s1.pend = s.pend ∧
-      s1.lock = s.lock ∧ s1.kind = s.kind := by
+      s1.lock = s.lock ∧ s1.kind = s.kind ∧ s1.pdel = s.pdel := by
   unfold createEp at h
   cases p <;> simp only at h <;> (repeat' split at h) <;> (try cases h) <;>
     (first
       | done
-      | (refine ⟨?_, ?_, ?_, ?_, ?_, ?_⟩ <;> (first | rfl | (split <;> rfl))))
+      | (refine ⟨?_, ?_, ?_, ?_, ?_, ?_, ?_⟩ <;> (first | rfl | (split <;> rfl))))
 
 theorem inv_enter {fx : Fix} {s s' : St} {m g key : Str} {p : Params} {orc : Oracle} {gid : Nat} {r : Res}
-    (hi : GInv s) (ht : s.table.lookup g = some gid)
+    (hi : GInv s) (ht : s.table.lookup g = some gid) (hpd : s.pdel = [])
     (hs : enter fx s m g key p orc gid = some (s', r)) : GInv s' := by
   unfold enter at hs
   simp only at hs
@@ -334,16 +359,16 @@ theorem inv_enter {fx : Fix} {s s' : St} {m g key : Str} {p : Params} {orc : Ora
     · cases hs
     · rename_i s1 e hce
       cases hs
-      obtain ⟨a, b, c, d, e', _⟩ := createEp_frame hce
-      exact inv_congr hi a b c d e'
+      obtain ⟨a, b, c, d, e', _, f⟩ := createEp_frame hce
+      exact inv_congr hi a b c d e' f
     · rename_i s1 rp k hce
       cases hs
-      obtain ⟨a, b, c, d, e', _⟩ := createEp_frame hce
-      have h1 : GInv s1 := inv_congr hi a b c d e'
+      obtain ⟨a, b, c, d, e', _, f⟩ := createEp_frame hce
+      have h1 : GInv s1 := inv_congr hi a b c d e' f
       have ht1 : s1.table.lookup g = some gid := by rw [c]; exact ht
       have hobj : s1.obj gid = s.obj gid := by simp [St.obj, b]
       rw [← hobj]
-      exact inv_populate h1 ht1 rfl (by simp) rfl rfl
+      exact inv_populate h1 ht1 rfl (by simp) rfl rfl (by rw [f]; exact hpd)
   · rename_i hne
     split at hs
     · cases hs; exact hi
@@ -352,30 +377,35 @@ theorem inv_enter {fx : Fix} {s s' : St} {m g key : Str} {p : Params} {orc : Ora
       · cases hs
         exact inv_setObj_ne hi (get_of_members hne) rfl hne (by simp) rfl rfl
 
+theorem lock_none_of {fx : Fix} (h1 : fx.oneLock = true) {s : St} (h : ¬ (lockFree fx s = false)) :
+    s.lock = none := by
+  cases hl : s.lock with
+  | none => rfl
+  | some x => simp [lockFree, h1, hl] at h
+
 theorem inv_lookup {fx : Fix} (h1 : fx.oneLock = true) {s s' : St} {m g : Str} {r : Res}
     (hi : GInv s) (hs : step fx s (.lookup m g) = some (s', r)) : GInv s' := by
-  simp only [step, lockFree, h1] at hs
+  simp only [step] at hs
   split at hs
   · cases hs
   · rename_i hcond
-    have hlock : s.lock = none := by
-      cases hl : s.lock with
-      | none => rfl
-      | some x => simp [hl] at hcond
-    have hpend := hi.lockNone hlock
+    have hlock : s.lock = none := lock_none_of h1 (fun e => hcond (Or.inr (Or.inl e)))
+    obtain ⟨hpend, hpd⟩ := hi.lockNone hlock
+    have hnopd : ∀ m j g', (m, j, g') ∈ s.pdel → False := by
+      intro m j g' hm; rw [hpd] at hm; cases hm
     split at hs
     · rename_i gid hlk
       cases hs
-      refine ⟨hi.noPanic, hi.openIff, hi.pop, hi.tab, hi.tabInj, ?_, ?_⟩
+      refine ⟨hi.noPanic, hi.openIff, hi.pop, hi.tab, hi.tabInj, ?_, ?_, hi.pdelOk⟩
       · intro h; simp at h
       · intro m' hm'
-        simp only [Option.some.injEq, if_true] at hm'
+        simp only [Option.some.injEq] at hm'
         subst hm'
-        exact ⟨g, gid, by simp [hpend], hlk⟩
+        exact Or.inl ⟨g, gid, by simp [hpend], hlk, hpd⟩
     · rename_i hlk
       cases hs
       have hnone : s.table.lookup g = none := hlk
-      refine ⟨hi.noPanic, ?_, ?_, ?_, ?_, ?_, ?_⟩
+      refine ⟨hi.noPanic, ?_, ?_, ?_, ?_, ?_, ?_, fun m j g' hm => (hnopd m j g' hm).elim⟩
       · intro j x hx
         simp only [List.getElem?_append] at hx
         split at hx
@@ -406,7 +436,7 @@ theorem inv_lookup {fx : Fix} (h1 : fx.oneLock = true) {s s' : St} {m g : Str} {
         simp only [List.lookup_cons] at hj
         split at hj
         · cases hj
-          exact ⟨{}, by simp, rfl⟩
+          exact ⟨{}, by simp, Or.inl rfl⟩
         · obtain ⟨x, hx, hxc⟩ := hi.tab g' j hj
           have hlt : j < s.objs.length := by
             rcases Nat.lt_or_ge j s.objs.length with hlt | hge
@@ -430,9 +460,9 @@ theorem inv_lookup {fx : Fix} (h1 : fx.oneLock = true) {s s' : St} {m g : Str} {
           rw [a1, a2]
       · intro h; simp at h
       · intro m' hm'
-        simp only [Option.some.injEq, if_true] at hm'
+        simp only [Option.some.injEq] at hm'
         subst hm'
-        exact ⟨g, s.objs.length, by simp [hpend], by simp⟩
+        exact Or.inl ⟨g, s.objs.length, by simp [hpend], by simp, hpd⟩
 
 
 theorem inv_enterStep {fx : Fix} (h1 : fx.oneLock = true) {s s' : St} {m key : Str} {p : Params}
@@ -445,32 +475,30 @@ theorem inv_enterStep {fx : Fix} (h1 : fx.oneLock = true) {s s' : St} {m key : S
     · rename_i m0 g gid hfind
       have hmem := List.mem_of_find?_eq_some hfind
       have hlk : s.lock ≠ none := by
-        intro hn; rw [hi.lockNone hn] at hmem; cases hmem
+        intro hn; rw [(hi.lockNone hn).1] at hmem; cases hmem
       cases hl : s.lock with
       | none => exact absurd hl hlk
       | some mm =>
-        obtain ⟨g0, gid0, hp, ht⟩ := hi.lockSome mm hl
-        rw [hp] at hmem hfind
-        simp only [List.mem_singleton, Prod.mk.injEq] at hmem
-        obtain ⟨rfl, rfl, rfl⟩ := hmem
-        have hb : (m0 == m) = true := by
-          have := List.find?_some hfind; simpa using this
-        have h0 : GInv { s with pend := s.pend.filter (fun x => !(x.1 == m)), lock := none } := by
-          refine ⟨hi.noPanic, hi.openIff, hi.pop, hi.tab, hi.tabInj, ?_, ?_⟩
-          · intro _; show s.pend.filter _ = []; rw [hp]; simp [hb]
-          · intro m' hm'; cases hm'
-        exact inv_enter h0 ht hs
+        rcases hi.lockSome mm hl with ⟨g0, gid0, hp, ht, hpd⟩ | ⟨hp, _⟩
+        · rw [hp] at hmem hfind
+          simp only [List.mem_singleton, Prod.mk.injEq] at hmem
+          obtain ⟨rfl, rfl, rfl⟩ := hmem
+          have hb : (m0 == m) = true := by
+            have := List.find?_some hfind; simpa using this
+          have h0 : GInv { s with pend := s.pend.filter (fun x => !(x.1 == m)), lock := none } := by
+            refine ⟨hi.noPanic, hi.openIff, hi.pop, hi.tab, hi.tabInj, ?_, ?_, hi.pdelOk⟩
+            · intro _; exact ⟨by show s.pend.filter _ = []; rw [hp]; simp [hb], hpd⟩
+            · intro m' hm'; cases hm'
+          exact inv_enter h0 ht hpd hs
+        · rw [hp] at hmem; cases hmem
 
 theorem inv_leaveL {fx : Fix} (h1 : fx.oneLock = true) {s s' : St} {m : Str} {gid : Nat} {r : Res}
     (hi : GInv s) (hs : step fx s (.leaveL m gid) = some (s', r)) : GInv s' ∧ r ≠ .crash := by
-  simp only [step, lockFree, h1] at hs
+  simp only [step] at hs
   split at hs
   · cases hs
   · rename_i hcond
-    have hlock : s.lock = none := by
-      cases hl : s.lock with
-      | none => rfl
-      | some x => simp [hl] at hcond
+    have hlock : s.lock = none := lock_none_of h1 (fun e => hcond (Or.inr (Or.inr e)))
     split at hs
     · cases hs
     · rename_i hmem
@@ -489,14 +517,11 @@ theorem inv_leaveL {fx : Fix} (h1 : fx.oneLock = true) {s s' : St} {m : Str} {gi
 
 theorem inv_leaveG {fx : Fix} (h1 : fx.oneLock = true) {s s' : St} {m g : Str} {r : Res}
     (hi : GInv s) (hs : step fx s (.leaveG m g) = some (s', r)) : GInv s' := by
-  simp only [step, lockFree, h1] at hs
+  simp only [step] at hs
   split at hs
   · cases hs
   · rename_i hcond
-    have hlock : s.lock = none := by
-      cases hl : s.lock with
-      | none => rfl
-      | some x => simp [hl] at hcond
+    have hlock : s.lock = none := lock_none_of h1 (fun e => hcond (Or.inr (Or.inr e)))
     split at hs
     · cases hs; exact hi
     · rename_i gid hlk
@@ -509,14 +534,135 @@ theorem inv_leaveG {fx : Fix} (h1 : fx.oneLock = true) {s s' : St} {m g : Str} {
       · cases hs
         exact inv_remove hi hlk rfl rfl hlock
 
-/-- **the invariant is preserved by every label** (controllers with the one-lock repair) -/
-theorem inv_step {fx : Fix} (h1 : fx.oneLock = true) {s s' : St} {l : Label} {r : Res}
+/-- **section 1 of a leave** (one-section controllers): a leave that is not the last changes the member
+    list only; the last one empties the object, closes its endpoint and KEEPS the controller lock — the
+    table still names the (now dead) object, and nobody can read the table until `leaveDel` -/
+theorem inv_leaveEdit {fx : Fix} (h1 : fx.oneLock = true) (h2 : fx.leaveOne = true) {s s' : St} {m : Str}
+    {gid : Nat} {r : Res} (hi : GInv s) (hs : step fx s (.leaveEdit m gid) = some (s', r)) :
+    GInv s' ∧ r ≠ .crash := by
+  simp only [step, h2, true_and, if_true] at hs
+  split at hs
+  · cases hs
+  · rename_i hcond
+    have hlock : s.lock = none := lock_none_of h1 (fun e => hcond (Or.inr (Or.inl e)))
+    obtain ⟨hpend, hpd⟩ := hi.lockNone hlock
+    split at hs
+    · cases hs
+    · rename_i hmem
+      have hmem' : m ∈ (s.obj gid).members := by simpa using hmem
+      have hne : (s.obj gid).members ≠ [] := by intro e; rw [e] at hmem'; cases hmem'
+      have hg := get_of_members hne
+      obtain ⟨hcc, hlk⟩ := hi.pop _ _ hg hne
+      split at hs
+      · rename_i hms
+        cases hs
+        exact ⟨inv_setObj_ne hi hg rfl hne hms rfl rfl, by simp⟩
+      · split at hs
+        · rename_i hc; rw [hcc] at hc; simp at hc
+        · cases hs
+          refine ⟨⟨hi.noPanic, ?_, ?_, ?_, hi.tabInj, ?_, ?_, ?_⟩, by simp⟩
+          · intro j x hx
+            rcases get_set hx with ⟨rfl, rfl, _⟩ | ⟨_, hx'⟩
+            · simp
+            · exact hi.openIff _ _ hx'
+          · intro j x hx hnx
+            rcases get_set hx with ⟨rfl, rfl, _⟩ | ⟨_, hx'⟩
+            · simp at hnx
+            · exact hi.pop _ _ hx' hnx
+          · intro g j hj
+            obtain ⟨x, hx, hxc⟩ := hi.tab g j hj
+            by_cases hji : j = gid
+            · subst hji
+              have hgn : g = (s.obj j).name := hi.tabInj _ _ _ hj hlk
+              exact ⟨_, get_setObj_self hg, Or.inr ⟨m, by rw [hgn]; exact List.mem_cons_self⟩⟩
+            · refine ⟨x, by rw [get_setObj_ne hji]; exact hx, ?_⟩
+              rcases hxc with e | ⟨m', hm'⟩
+              · exact Or.inl e
+              · rw [hpd] at hm'; cases hm'
+          · intro h; cases h
+          · intro m' hm'
+            simp only [Option.some.injEq] at hm'
+            subst hm'
+            exact Or.inr ⟨hpend, gid, (s.obj gid).name, by simp [hpd]⟩
+          · intro m' j g hm'
+            have hm'' : (m', j, g) ∈ (m, gid, (s.obj gid).name) :: s.pdel := hm'
+            rw [hpd] at hm''
+            simp only [List.mem_singleton, Prod.mk.injEq] at hm''
+            obtain ⟨rfl, rfl, rfl⟩ := hm''
+            exact ⟨hlk, _, get_setObj_self hg, rfl, rfl⟩
+
+/-- **section 2 of a leave**: the table entry of the emptied object goes, the controller lock is free again -/
+theorem inv_leaveDel {fx : Fix} (h2 : fx.leaveOne = true) {s s' : St} {m : Str} {r : Res}
+    (hi : GInv s) (hs : step fx s (.leaveDel m) = some (s', r)) : GInv s' := by
+  simp only [step, h2, if_true] at hs
+  split at hs
+  · cases hs
+  · split at hs
+    · cases hs
+    · rename_i m0 gid name hfind
+      simp only [Bool.true_eq_false, false_and, if_false] at hs
+      cases hs
+      have hmem := List.mem_of_find?_eq_some hfind
+      have hb : (m0 == m) = true := by
+        have := List.find?_some hfind; simpa using this
+      have hm0 : m0 = m := by simpa using hb
+      subst hm0
+      obtain ⟨ht, o, hg, hom, hon⟩ := hi.pdelOk _ _ _ hmem
+      have hlk : s.lock ≠ none := by
+        intro hn; rw [(hi.lockNone hn).2] at hmem; cases hmem
+      cases hl : s.lock with
+      | none => exact absurd hl hlk
+      | some mm =>
+        rcases hi.lockSome mm hl with ⟨g0, gid0, _, _, hpd⟩ | ⟨hpend, gid1, g1, hpd⟩
+        · rw [hpd] at hmem; cases hmem
+        · rw [hpd] at hmem
+          simp only [List.mem_singleton, Prod.mk.injEq] at hmem
+          obtain ⟨rfl, rfl, rfl⟩ := hmem
+          have hpd' : s.pdel.filter (fun x => !(x.1 == m0)) = [] := by rw [hpd]; simp
+          simp only [ht, if_true]
+          refine ⟨hi.noPanic, hi.openIff, ?_, ?_, ?_, fun _ => ⟨hpend, hpd'⟩, (by intro m' h; cases h), ?_⟩
+          · intro j x hx hnx
+            obtain ⟨hc, hlkx⟩ := hi.pop _ _ hx hnx
+            have : x.name ≠ name := by
+              intro e; rw [e, ht] at hlkx; cases hlkx
+              rw [hg] at hx; cases hx; exact hnx hom
+            exact ⟨hc, by show List.lookup x.name (s.table.filter _) = some j
+                          rw [lookup_filter_ne _ _ _ this]; exact hlkx⟩
+          · intro g' j hj
+            have hj' : List.lookup g' (s.table.filter (fun e => !(e.1 == name))) = some j := hj
+            have hne : g' ≠ name := by
+              intro e; rw [e, lookup_filter_self] at hj'; cases hj'
+            rw [lookup_filter_ne _ _ _ hne] at hj'
+            obtain ⟨x, hx, hxc⟩ := hi.tab g' j hj'
+            refine ⟨x, hx, Or.inl ?_⟩
+            rcases hxc with e | ⟨m', hm'⟩
+            · exact e
+            · rw [hpd] at hm'
+              simp only [List.mem_singleton, Prod.mk.injEq] at hm'
+              exact absurd hm'.2.2 hne
+          · intro g1 g2 j hj1 hj2
+            have h1' : List.lookup g1 (s.table.filter (fun e => !(e.1 == name))) = some j := hj1
+            have h2' : List.lookup g2 (s.table.filter (fun e => !(e.1 == name))) = some j := hj2
+            have n1 : g1 ≠ name := by intro e; rw [e, lookup_filter_self] at h1'; cases h1'
+            have n2 : g2 ≠ name := by intro e; rw [e, lookup_filter_self] at h2'; cases h2'
+            rw [lookup_filter_ne _ _ _ n1] at h1'
+            rw [lookup_filter_ne _ _ _ n2] at h2'
+            exact hi.tabInj _ _ _ h1' h2'
+          · intro m' j g' hm'
+            have hm'' : (m', j, g') ∈ s.pdel.filter (fun x => !(x.1 == m0)) := hm'
+            rw [hpd'] at hm''; cases hm''
+
+/-- **the invariant is preserved by every label** (controllers with the one-lock repair whose leaves keep
+    the controller lock across both sections) -/
+theorem inv_step {fx : Fix} (h1 : fx.oneLock = true) (h2 : fx.leaveOne = true) {s s' : St} {l : Label} {r : Res}
     (hi : GInv s) (hs : step fx s l = some (s', r)) : GInv s' := by
   cases l with
   | lookup m g => exact inv_lookup h1 hi hs
   | enter m key p orc => exact inv_enterStep h1 hi hs
   | leaveL m gid => exact (inv_leaveL h1 hi hs).1
   | leaveG m g => exact inv_leaveG h1 hi hs
+  | leaveEdit m gid => exact (inv_leaveEdit h1 h2 hi hs).1
+  | leaveDel m => exact inv_leaveDel h2 hi hs
   | accept c gid => exact inv_accept hi hs
   | handoff c m => exact inv_handoff hi hs
   | send c => exact inv_send hi hs
@@ -526,7 +672,7 @@ theorem inv_step {fx : Fix} (h1 : fx.oneLock = true) {s s' : St} {l : Label} {r 
   | unsquat k => exact inv_unsquat hi hs
 
 /-- … hence holds after every finite label sequence -/
-theorem inv_run {fx : Fix} (h1 : fx.oneLock = true) (ls : List Label) :
+theorem inv_run {fx : Fix} (h1 : fx.oneLock = true) (h2 : fx.leaveOne = true) (ls : List Label) :
     ∀ {s s' : St}, GInv s → run fx s ls = some s' → GInv s' := by
   induction ls with
   | nil => intro s s' hi h; simp [run] at h; subst h; exact hi
@@ -536,7 +682,7 @@ theorem inv_run {fx : Fix} (h1 : fx.oneLock = true) (ls : List Label) :
     split at h
     · cases h
     · rename_i s1 r hstep
-      exact ih (inv_step h1 hi hstep) h
+      exact ih (inv_step h1 h2 hi hstep) h
 
 end Group
 end Frp
